@@ -72,7 +72,7 @@ mod verif_kani {
         )))
     }
 
-    //@harness props=C02,C12 kind=proof fns=BinaryOperator::left_needs_parentheses
+    //@harness props=C02,C12 kind=proof fns=BinaryOperator::left_needs_parentheses bound="all 16 x 16 (parent, child) operator pairs; the child's own operands are `nil` leaves (the Verus obligation on the same function covers every child tree)"
     //@ desc="for every parent operator p and every binary left child with operator c: (lvl(c) < lvl(p) or (lvl(c) == lvl(p) and rassoc(p))) ==> left_needs_parentheses; callees precedes / is_left_associative / precedes_unary_expression replaced by their verified contracts"
     #[kani::proof]
     #[kani::unwind(3)]
@@ -90,7 +90,7 @@ mod verif_kani {
         core::mem::forget(child);
     }
 
-    //@harness props=C02,C12 kind=proof fns=BinaryOperator::left_needs_parentheses
+    //@harness props=C02,C12 kind=proof fns=BinaryOperator::left_needs_parentheses bound="all 16 parent operators x 3 unary operators; operand `nil`"
     //@ desc="a unary expression as left operand of `^` is parenthesised ((-x)^2 is not -x^2)"
     #[kani::proof]
     #[kani::unwind(3)]
@@ -118,7 +118,7 @@ mod verif_kani {
         core::mem::forget(child);
     }
 
-    //@harness props=C02,C12 kind=proof fns=BinaryOperator::left_needs_parentheses,ends_with_if_expression
+    //@harness props=C02,C12 kind=proof fns=BinaryOperator::left_needs_parentheses,ends_with_if_expression bound="all operators at every symbolic position; the stated shape with `nil` leaves"
     //@ desc="a left operand that IS an if-expression is parenthesised for every parent operator (the else branch would swallow the operator)"
     #[kani::proof]
     #[kani::unwind(3)]
@@ -129,7 +129,7 @@ mod verif_kani {
         check_if_tail(if_leaf());
     }
 
-    //@harness props=C02,C12 kind=proof fns=BinaryOperator::left_needs_parentheses,ends_with_if_expression
+    //@harness props=C02,C12 kind=proof fns=BinaryOperator::left_needs_parentheses,ends_with_if_expression bound="all operators at every symbolic position; the stated shape with `nil` leaves"
     //@ desc="a left operand `x <any op> if..else..` (if-expression at its right edge) is parenthesised for every parent operator"
     #[kani::proof]
     #[kani::unwind(4)]
@@ -140,7 +140,7 @@ mod verif_kani {
         check_if_tail(bin(any_binop(), Expression::nil(), if_leaf()));
     }
 
-    //@harness props=C02,C12 kind=proof fns=BinaryOperator::left_needs_parentheses,ends_with_if_expression
+    //@harness props=C02,C12 kind=proof fns=BinaryOperator::left_needs_parentheses,ends_with_if_expression bound="all operators at every symbolic position; the stated shape with `nil` leaves"
     //@ desc="a left operand `<unary op> if..else..` is parenthesised for every parent operator"
     #[kani::proof]
     #[kani::unwind(4)]
@@ -151,7 +151,7 @@ mod verif_kani {
         check_if_tail(un(if_leaf()));
     }
 
-    //@harness props=C02,C12 kind=proof tier=thorough fns=BinaryOperator::left_needs_parentheses,ends_with_if_expression
+    //@harness props=C02,C12 kind=proof tier=thorough fns=BinaryOperator::left_needs_parentheses,ends_with_if_expression bound="all operators at every symbolic position; the stated shape with `nil` leaves"
     //@ desc="a left operand `x <any op> <unary op> if..else..` is parenthesised for every parent operator" budget=600
     #[kani::proof]
     #[kani::unwind(5)]
@@ -162,7 +162,7 @@ mod verif_kani {
         check_if_tail(bin(any_binop(), Expression::nil(), un(if_leaf())));
     }
 
-    //@harness props=C02,C12 kind=proof fns=BinaryOperator::right_needs_parentheses
+    //@harness props=C02,C12 kind=proof fns=BinaryOperator::right_needs_parentheses bound="all 16 x 16 (parent, child) operator pairs; the child's own operands are `nil` leaves (the Verus obligation on the same function covers every child tree)"
     //@ desc="for every parent operator p and every binary right child with operator c: (lvl(c) < lvl(p) or (lvl(c) == lvl(p) and not rassoc(p))) ==> right_needs_parentheses; callees replaced by their verified contracts"
     #[kani::proof]
     #[kani::unwind(3)]
@@ -189,7 +189,7 @@ mod verif_kani {
         core::mem::forget(child);
     }
 
-    //@harness props=C02,C12 kind=proof fns=BinaryOperator::left_needs_parentheses,ends_with_type_cast_to_type_name_without_type_parameters
+    //@harness props=C02,C12 kind=proof fns=BinaryOperator::left_needs_parentheses,ends_with_type_cast_to_type_name_without_type_parameters bound="all operators at every symbolic position; the stated shape with `nil` leaves and the type name `T`"
     //@ desc="left operand of `<` that IS a cast to a bare type name (`x :: T`) is parenthesised"
     #[kani::proof]
     #[kani::unwind(4)]
@@ -197,7 +197,7 @@ mod verif_kani {
         check_cast_tail(cast_to_name(Expression::nil()));
     }
 
-    //@harness props=C02,C12 kind=proof fns=BinaryOperator::left_needs_parentheses,ends_with_type_cast_to_type_name_without_type_parameters
+    //@harness props=C02,C12 kind=proof fns=BinaryOperator::left_needs_parentheses,ends_with_type_cast_to_type_name_without_type_parameters bound="all operators at every symbolic position; the stated shape with `nil` leaves and the type name `T`"
     //@ desc="left operand of `<` of the form `a <any op> (y :: T)` (cast at its RIGHT edge) is parenthesised, for all 16 operators" budget=300
     #[kani::proof]
     #[kani::unwind(5)]
@@ -205,7 +205,7 @@ mod verif_kani {
         check_cast_tail(bin(any_binop(), Expression::nil(), cast_to_name(Expression::nil())));
     }
 
-    //@harness props=C02,C12 kind=proof fns=BinaryOperator::left_needs_parentheses,ends_with_type_cast_to_type_name_without_type_parameters
+    //@harness props=C02,C12 kind=proof fns=BinaryOperator::left_needs_parentheses,ends_with_type_cast_to_type_name_without_type_parameters bound="all operators at every symbolic position; the stated shape with `nil` leaves and the type name `T`"
     //@ desc="left operand of `<` of the form `<unary op> (y :: T)` is parenthesised, for all 3 unary operators" budget=300
     #[kani::proof]
     #[kani::unwind(5)]
